@@ -1,14 +1,89 @@
 /-
   SpecKitV.Drv.ExtSchedGlue — driver operations of the generated region `SchedGlue` (extension point: `dispatch op` returns
   `some handler` for the operations this file serves).  Mathlib-free.
+
+  `genplan <ltf|lpsd|vec|new> <fuel> <n> (<key> <i|r> <value>)^n`
+        the TRANSLATED scheduler (`Gen.ltf_plan`, `Gen.lpsd_plan`, `Gen.vectorized_ltf_plan`, `Gen.new_ltf_plan`) applied to the keyword
+        dictionary built by storing the `n` bindings in the given order (`i` = Python int, decimal; `r` = Python float, hex bits);
+        answer `NONE` or the whole output dictionary
+        `nf | f… | r… | b… | m… | L… | K… | navg… | O… | D_0… ; D_1… ; …`
+  `gentail <ltf|vec|new> N <f arr> <r arr> [<b arr>] <L ints> <K ints>`
+        the translated statements AFTER the walk (`Gen.<fn>_glue_post`) applied to given walk results (no `b` for `vec`); same answer format
 -/
 import SpecKitV.Drv.Base
+import SpecKitV.Gen.SchedGlue
 
 namespace Drv.ExtSchedGlue
 open Drv
 
+def intArr : M (List Int) := do
+  let n ← nat
+  let mut a : Array Int := Array.mkEmpty n
+  for _ in [0:n] do
+    a := a.push (← int)
+  return a.toList
+
+def joinI (l : List Int) : String := " ".intercalate (l.map toString)
+
+def fmtPlan (p : Option (Py.PlanDict Float)) : String :=
+  match p with
+  | none => "NONE"
+  | some d =>
+    s!"{d.nf} | {joinF d.f} | {joinF d.r} | {joinF d.b} | {joinF d.m} | {joinI d.L} | {joinI d.K} | {joinI d.navg} | {joinF d.O} | "
+      ++ " ; ".intercalate (d.D.map joinI)
+
+def kwargs : M (Py.Dict (Py.Val Float)) := do
+  let n ← nat
+  let mut d : Py.Dict (Py.Val Float) := Py.Dict.empty
+  for _ in [0:n] do
+    let k ← tok
+    let kind ← tok
+    if kind == "i" then
+      d := Py.Dict.set d k (Py.Val.int (← int))
+    else if kind == "r" then
+      d := Py.Dict.set d k (Py.Val.real (← flt))
+    else throw s!"kwargs kind:{kind}"
+  return d
+
+def opGenPlan : M String := do
+  let which ← tok
+  let fuel ← nat
+  let args ← kwargs
+  match which with
+  | "ltf" => return fmtPlan (Gen.ltf_plan args fuel)
+  | "lpsd" => return fmtPlan (Gen.lpsd_plan args fuel)
+  | "vec" => return fmtPlan (Gen.vectorized_ltf_plan args fuel)
+  | "new" => return fmtPlan (Gen.new_ltf_plan args fuel)
+  | _ => throw s!"genplan:{which}"
+
+def opGenTail : M String := do
+  let which ← tok
+  let N ← int
+  let f := (← fltArr).toList
+  let r := (← fltArr).toList
+  -- the scalar parameters other than N are not read by the statements after the walk (they are parameters of the generated
+  -- definition only because the source could read them): NaN makes any use visible
+  match which with
+  | "ltf" =>
+    let b := (← fltArr).toList
+    let L ← intArr
+    let K ← intArr
+    return fmtPlan (Gen.ltf_plan_glue_post N nan nan nan 0 0 0 f r b L K)
+  | "new" =>
+    let b := (← fltArr).toList
+    let L ← intArr
+    let K ← intArr
+    return fmtPlan (Gen.new_ltf_plan_glue_post N nan nan nan 0 0 0 f r b L K)
+  | "vec" =>
+    let L ← intArr
+    let K ← intArr
+    return fmtPlan (Gen.vectorized_ltf_plan_glue_post N nan nan nan 0 0 0 f r L K)
+  | _ => throw s!"gentail:{which}"
+
 def dispatch (op : String) : Option (M String) :=
   match op with
+  | "genplan" => some opGenPlan
+  | "gentail" => some opGenTail
   | _ => none
 
 end Drv.ExtSchedGlue
